@@ -42,10 +42,10 @@ for tier in ('quick',):
         check(np.all(np.diff(img.ravel()[o]) <= 0), 'image monotone in r_ell')
         check(np.isfinite(img).all() and (img > 0).all(), 'image finite positive')
         # model metric: the image itself has zero excess, a one-pixel shift has not (steep galaxies)
-        ex, _, n = c20.model_excess(img, case, t, 6.0, 25.0)
-        check(ex == 0.0 and n > 100, 'model_excess(image) == 0')
-        ex2, _, _ = c20.model_excess(np.roll(img, 2, axis=1), case, t, 6.0, 25.0)
-        check(ex2 > 0.02, f'model_excess(shifted by 2 px) > 0: {ex2}')
+        ex, _, n, nbad = c20.model_excess(img, case, t, 6.0, 25.0)
+        check(ex == 0.0 and nbad == 0 and n > 100, 'model_excess(image) == 0')
+        ex2, _, _, nbad2 = c20.model_excess(np.roll(img, 2, axis=1), case, t, 6.0, 25.0)
+        check(ex2 > 0.02 and nbad2 > 0, f'model_excess(shifted by 2 px) > 0: {ex2}')
 
 # 3. sma sequence
 for growth in c20.GROWTH:
